@@ -96,6 +96,11 @@ pub struct World {
     pub trust_anchor_text: String,
     /// The same anchor given as a DS record of the root key.
     pub trust_anchor_ds_text: String,
+    /// `island.tld.` is a signed zone whose delegation carries no DS: an
+    /// island of security. A validator that has this DNSKEY among its trust
+    /// anchors (next to the root's) finds its data secure - the innermost
+    /// anchor counts -, one that has not finds it insecure.
+    pub island_anchor_text: String,
     pub inception: u32,
     pub expiration: u32,
     /// The RRSIG over `zone.tld. DS` (in the tld zone) expires earlier than
@@ -262,6 +267,7 @@ pub fn build_world(variant: u32, epoch: u32) -> World {
     // theirs passes a name that is no zone cut.
     let z1_key = make_key("z1.ent.tld.", 5);
     let z2_key = make_key("z2.ent.tld.", 6);
+    let island_key = make_key("island.tld.", 7);
     let leaf_denial = match variant % 4 {
         0 => Denial::Nsec,
         1 => Denial::Nsec3 { iterations: 0, salt: false, opt_out: false },
@@ -278,7 +284,7 @@ pub fn build_world(variant: u32, epoch: u32) -> World {
     // RFC 4035 section 5.2 has a validator ignore those and use the rest.
     let extra_ds = if variant % 2 == 1 { format!("zone.tld. 3600 IN DS 4711 15 2 {}\n", "AB".repeat(32)) } else { String::new() };
     let tld_text = format!(
-        "tld. 3600 IN SOA ns.tld. admin.tld. 1 7200 3600 86400 300\ntld. 3600 IN NS ns.tld.\nns.tld. 3600 IN A 198.51.100.2\nzone.tld. 3600 IN NS ns.zone.tld.\n{extra_ds}zone.tld. 3600 IN DS {}\nns.zone.tld. 3600 IN A 198.51.100.3\nunsigned.tld. 3600 IN NS ns.unsigned.tld.\nns.unsigned.tld. 3600 IN A 198.51.100.4\nevil.tld. 3600 IN NS ns.evil.tld.\nevil.tld. 3600 IN DS {}\nns.evil.tld. 3600 IN A 198.51.100.66\nplain.tld. 3600 IN TXT \"in the tld zone\"\nalso.unsigned2.tld. 3600 IN TXT \"below an ent\"\nz1.ent.tld. 3600 IN NS ns.z1.ent.tld.\nz1.ent.tld. 3600 IN DS {}\nns.z1.ent.tld. 3600 IN A 198.51.100.71\nz2.ent.tld. 3600 IN NS ns.z2.ent.tld.\nz2.ent.tld. 3600 IN DS {}\nns.z2.ent.tld. 3600 IN A 198.51.100.72\ned.tld. 3600 IN NS ns.ed.tld.\ned.tld. 3600 IN DS 4712 15 2 {}\nns.ed.tld. 3600 IN A 198.51.100.73\n",
+        "tld. 3600 IN SOA ns.tld. admin.tld. 1 7200 3600 86400 300\ntld. 3600 IN NS ns.tld.\nns.tld. 3600 IN A 198.51.100.2\nzone.tld. 3600 IN NS ns.zone.tld.\n{extra_ds}zone.tld. 3600 IN DS {}\nns.zone.tld. 3600 IN A 198.51.100.3\nunsigned.tld. 3600 IN NS ns.unsigned.tld.\nns.unsigned.tld. 3600 IN A 198.51.100.4\nevil.tld. 3600 IN NS ns.evil.tld.\nevil.tld. 3600 IN DS {}\nns.evil.tld. 3600 IN A 198.51.100.66\nplain.tld. 3600 IN TXT \"in the tld zone\"\nalso.unsigned2.tld. 3600 IN TXT \"below an ent\"\nz1.ent.tld. 3600 IN NS ns.z1.ent.tld.\nz1.ent.tld. 3600 IN DS {}\nns.z1.ent.tld. 3600 IN A 198.51.100.71\nz2.ent.tld. 3600 IN NS ns.z2.ent.tld.\nz2.ent.tld. 3600 IN DS {}\nns.z2.ent.tld. 3600 IN A 198.51.100.72\ned.tld. 3600 IN NS ns.ed.tld.\ned.tld. 3600 IN DS 4712 15 2 {}\nns.ed.tld. 3600 IN A 198.51.100.73\nisland.tld. 3600 IN NS ns.island.tld.\nns.island.tld. 3600 IN A 198.51.100.74\n",
         ds_text("zone.tld.", &zone_key.1),
         ds_text("evil.tld.", &evil_key.1),
         ds_text("z1.ent.tld.", &z1_key.1),
@@ -331,6 +337,11 @@ www.z2.ent.tld. 300 IN A 192.0.2.72\n";
 ed.tld. 3600 IN NS ns.ed.tld.\n\
 ns.ed.tld. 3600 IN A 198.51.100.73\n\
 host.ed.tld. 300 IN A 203.0.113.73\n";
+    let island_text = "island.tld. 3600 IN SOA ns.island.tld. admin.island.tld. 1 7200 3600 86400 300\n\
+island.tld. 3600 IN NS ns.island.tld.\n\
+ns.island.tld. 3600 IN A 198.51.100.74\n\
+www.island.tld. 300 IN A 192.0.2.74\n\
+txt.island.tld. 300 IN TXT \"on the island\"\n";
     let mut zones = vec![
         build_zone(".", &root_text, Some(&root_key), Denial::Nsec, inception, expiration),
         build_zone("tld.", &tld_text, Some(&tld_key), tld_denial, inception, expiration),
@@ -340,6 +351,7 @@ host.ed.tld. 300 IN A 203.0.113.73\n";
         build_zone("z1.ent.tld.", z1_text, Some(&z1_key), Denial::Nsec, inception, expiration),
         build_zone("z2.ent.tld.", z2_text, Some(&z2_key), leaf_denial, inception, expiration),
         build_zone("ed.tld.", ed_text, None, Denial::Nsec, inception, expiration),
+        build_zone("island.tld.", island_text, Some(&island_key), Denial::Nsec, inception, expiration),
     ];
     // The DS of zone.tld is signed for a shorter period.
     {
@@ -391,6 +403,10 @@ host.ed.tld. 300 IN A 203.0.113.73\n";
         evil_root,
         trust_anchor_text: format!(". 3600 IN DNSKEY {}", b64),
         trust_anchor_ds_text: format!(". 3600 IN DS {}", ds_text(".", &root_key.1)),
+        island_anchor_text: {
+            let rec: Record<SName, Dnskey<Vec<u8>>> = Record::new(sname("island.tld."), Class::IN, Ttl::from_secs(3600), island_key.1.clone());
+            format!("island.tld. 3600 IN DNSKEY {}", rec.data())
+        },
         inception,
         expiration,
         ds_expiration,
@@ -409,6 +425,8 @@ pub struct Resp {
     pub authority: Vec<SRec>,
     /// Expected security status of the final answer.
     pub insecure: bool,
+    /// The data comes from the island of security (`island.tld.`).
+    pub island: bool,
     /// The RRsets that constitute the negative / wildcard proof (owner, type)
     /// - for the oracle.
     pub proof: Vec<(String, Rtype)>,
@@ -695,6 +713,9 @@ impl World {
             let z = self.find_zone(&name, qtype);
             if !z.signed {
                 r.insecure = true;
+            }
+            if z.apex == "island.tld." {
+                r.island = true;
             }
             let qn = sname(&name);
             // 1. data
